@@ -61,6 +61,8 @@ class Kernel:
         self.calls = 0
         self.fail_at = set()   # indices of requests the kernel refuses (NetlinkError)
         self.fail_ops = set()  # or: refuse every request of this kind ('NEWSA', ...)
+        self.fail_newsa = set()  # ordinals (0, 1, ...) of the NEWSA requests the kernel refuses
+        self.newsa_seen = 0
 
     @staticmethod
     def _sel(s):
@@ -100,6 +102,9 @@ class Kernel:
         rec['idx'] = idx
         rec['flags'] = flags
         refused = idx in self.fail_at or rec['op'] in self.fail_ops
+        if rec['op'] == 'NEWSA':
+            refused = refused or self.newsa_seen in self.fail_newsa
+            self.newsa_seen += 1
         err = None
         if not refused:
             if rec['op'] == 'NEWSA':
@@ -296,12 +301,12 @@ class Endpoint:
     def tracked_sad(self):
         """what the SAD should hold, from the CHILD_SAs of the IKE_SAs in the table (and of their pending successors
         are *not* counted: a successor becomes the daemon's only once it is in the table)"""
-        keys = []
+        keys = set()
         for s in self.controller.ike_sas:
             for c in s.child_sas:
                 proto = 50 if int(c.proposal.protocol_id) == 3 else 51
-                keys.append((str(s.peer_addr), proto, bytes(c.outbound_spi)))
-                keys.append((str(s.my_addr), proto, bytes(c.inbound_spi)))
+                keys.add((str(s.peer_addr), proto, bytes(c.outbound_spi)))
+                keys.add((str(s.my_addr), proto, bytes(c.inbound_spi)))
         return sorted(keys)
 
 
@@ -321,8 +326,8 @@ def snap_sa(s):
         'my_spi': s.my_spi.hex(), 'peer_spi': bytes(s.peer_spi).hex(), 'init': bool(s.is_initiator), 'state': int(s.state),
         'my_id': s.my_msg_id, 'peer_id': s.peer_msg_id, 'keyed': s.peer_crypto is not None,
         'children': [(c.inbound_spi.hex(), bytes(c.outbound_spi).hex(), int(c.proposal.protocol_id)) for c in s.child_sas],
-        'dpd_at': round(s.start_dpd_at, 3), 'rtx': s.retransmissions, 'rtx_at': round(s.retransmit_at, 3),
-        'rekey_at': round(s.rekey_ike_sa_at, 3), 'delete_at': round(s.delete_ike_sa_at, 3),
+        'dpd_at': s.start_dpd_at, 'rtx': s.retransmissions, 'rtx_at': s.retransmit_at,
+        'rekey_at': s.rekey_ike_sa_at, 'delete_at': s.delete_ike_sa_at,
         'pending': len(s.pending_events), 'has_new': s.new_ike_sa is not None,
         'last_resp': getattr(s, 'last_sent_response_data', None) and bytes(s.last_sent_response_data).hex()[:0] or None,
     }
@@ -334,35 +339,39 @@ RSA_PRIV = None
 
 
 def default_conf(a=IP_A, b=IP_B, **kw):
-    """the two-connection dictionary of the repository's own tests, parameterised"""
-    ike = {'dh': kw.get('dh', ['19']), 'integ': kw.get('integ', ['sha256']), 'prf': kw.get('prf', ['sha256']),
-           'encr': kw.get('encr', ['aes256'])}
-    prot = {'ip_proto': kw.get('ip_proto', 'tcp'), 'mode': kw.get('mode', 'transport'), 'lifetime': kw.get('child_lifetime', 300),
-            'ipsec_proto': kw.get('ipsec_proto', 'esp'), 'encr': kw.get('child_encr', ['aes256', 'aes128']),
-            'integ': kw.get('child_integ', ['sha256'])}
-    if kw.get('child_dh'):
-        prot['dh'] = kw['child_dh']
-    if kw.get('subnets'):
-        sa, sb = kw['subnets']
-    else:
-        sa, sb = None, None
+    """the two-connection dictionary of the repository's own tests, parameterised; a key with suffix `_b` overrides the
+    value for endpoint B only (mismatching preference orders, modes, selectors, credentials)"""
 
-    def conn(me, peer, my_id, my_psk, peer_id, peer_psk, index, my_port, peer_port, my_sub, peer_sub):
+    def side(which):
+        g = lambda k, d: kw.get(k + '_b', kw.get(k, d)) if which == 'b' else kw.get(k, d)
+        ike = {'dh': g('dh', ['19']), 'integ': g('integ', ['sha256']), 'prf': g('prf', ['sha256']), 'encr': g('encr', ['aes256'])}
+        prot = {'ip_proto': g('ip_proto', 'tcp'), 'mode': g('mode', 'transport'), 'lifetime': g('child_lifetime', 300),
+                'ipsec_proto': g('ipsec_proto', 'esp'), 'encr': g('child_encr', ['aes256', 'aes128']),
+                'integ': g('child_integ', ['sha256'])}
+        if g('child_dh', None):
+            prot['dh'] = g('child_dh', None)
+        return ike, prot, g
+
+    def conn(which, me, peer, my_id, my_psk, peer_id, peer_psk, index, my_port, peer_port, my_sub, peer_sub):
+        ike, prot, g = side(which)
         p = dict(prot)
         p.update({'index': index, 'my_port': my_port, 'peer_port': peer_port})
         if my_sub:
             p['my_subnet'] = my_sub
             p['peer_subnet'] = peer_sub
         d = {'my_addr': str(me), 'peer_addr': str(peer), 'my_auth': {'id': my_id, 'psk': my_psk},
-             'peer_auth': {'id': peer_id, 'psk': peer_psk}, 'lifetime': kw.get('ike_lifetime', 900), 'dpd': kw.get('dpd', 60),
+             'peer_auth': {'id': peer_id, 'psk': peer_psk}, 'lifetime': g('ike_lifetime', 900), 'dpd': g('dpd', 60),
              'protect': [p]}
         d.update(ike)
         return d
 
-    ca = {'alice': conn(a, b, 'alice@openikev2', kw.get('psk_a', 'testing'), 'bob@openikev2', kw.get('psk_b', 'testing2'),
-                        1, 0, kw.get('port', 23), sa, sb)}
-    cb = {'bob': conn(b, a, 'bob@openikev2', kw.get('psk_b', 'testing2'), 'alice@openikev2', kw.get('psk_a', 'testing'),
-                      2, kw.get('port', 23), 0, sb, sa)}
+    sa, sb = kw.get('subnets', (None, None))
+    sa2, sb2 = kw.get('subnets_b', (sa, sb))
+    port = kw.get('port', 23)
+    ca = {'alice': conn('a', a, b, 'alice@openikev2', kw.get('psk_a', 'testing'), 'bob@openikev2', kw.get('psk_b', 'testing2'),
+                        1, 0, port, sa, sb)}
+    cb = {'bob': conn('b', b, a, 'bob@openikev2', kw.get('psk_b_own', kw.get('psk_b', 'testing2')), 'alice@openikev2',
+                      kw.get('psk_a_seen_by_b', kw.get('psk_a', 'testing')), 2, kw.get('port_b', port), 0, sb2, sa2)}
     return ca, cb
 
 
@@ -406,18 +415,21 @@ class World:
     def _install(self, capture_logs):
         w = self
         self._saved = {
-            'urandom': os.urandom, 'SystemRandom': M.SystemRandom, 'ikesa.random': IKESA.random, 'ikesa.time': IKESA.time,
+            'urandom': os.urandom, 'SystemRandom': M.SystemRandom, 'ikesa.random': IKESA.random, 'ikesa.time': IKESA.time, 'ikesa.traceback': IKESA.traceback,
             'xfrm.random': X.random, 'conf.random': CONF.random, 'send_recv': X.Xfrm.__dict__.get('send_recv'),
             'get_socket': X.Xfrm.__dict__.get('get_socket'), 'ctrl.socket': CTRL.socket, 'ctrl.select': CTRL.select,
             'log_disable': logging.root.manager.disable, 'log_level': logging.root.level,
         }
-        os.urandom = lambda n: bytes(w.rnd.getrandbits(8) for _ in range(n))
+        w.side = random.Random(12345)
+        w.use_side = False
+        os.urandom = lambda n: bytes((w.side if w.use_side else w.rnd).getrandbits(8) for _ in range(n))
         M.SystemRandom = lambda: w.rnd
-        rshim = types.SimpleNamespace(uniform=lambda a, b: round(w.rnd.uniform(a, b), 3), randint=lambda a, b: w.rnd.randint(a, b))
+        rshim = types.SimpleNamespace(uniform=lambda a, b: round(w.rnd.uniform(a, b) * 1024) / 1024, randint=lambda a, b: w.rnd.randint(a, b))
         IKESA.random = rshim
         X.random = rshim
         CONF.random = rshim
         IKESA.time = types.SimpleNamespace(time=lambda: w.now)
+        IKESA.traceback = types.SimpleNamespace(print_exc=lambda *a, **k: None)
         X.Xfrm.send_recv = classmethod(lambda cls, pt, fl, payload, attributes=None: w.current.kernel.request(pt, fl, payload, attributes))
         X.Xfrm.get_socket = classmethod(lambda cls: FakeXfrmSock(w))
         shim = types.SimpleNamespace(
@@ -440,6 +452,7 @@ class World:
         os.urandom = s['urandom']
         M.SystemRandom = s['SystemRandom']
         IKESA.random, IKESA.time = s['ikesa.random'], s['ikesa.time']
+        IKESA.traceback = s['ikesa.traceback']
         X.random, CONF.random = s['xfrm.random'], s['conf.random']
         for name, key in (('send_recv', 'send_recv'), ('get_socket', 'get_socket')):
             if s[key] is None:
@@ -496,7 +509,7 @@ class World:
 
     def tick(self, dt, eps=None):
         """advance the clock and run one idle loop iteration on each endpoint"""
-        self.now = round(self.now + dt, 3)
+        self.now = round((self.now + dt) * 1024) / 1024
         for ep in (eps or (self.A, self.B)):
             ep.step()
 
